@@ -31,7 +31,7 @@ type Step struct {
 
 // Reader describes one reading client.
 type Reader struct {
-	Transport string `json:"transport"` // udp | tcp | http | ws | mcast (UDP-multicast, at most one reader per run)
+	Transport string `json:"transport"` // udp | tcp | http | ws | mcast (UDP-multicast, at most two readers per run)
 	StartUS   int    `json:"start_us"`
 	Script    []Step `json:"script"`
 	// LeaveUS > 0: the reader closes this long after its last step instead of
@@ -133,10 +133,13 @@ func gen(seed uint64, tier string) Scenario {
 	}
 	// one reader may use UDP-multicast (hash-derived so that no other choice of the scenario moves)
 	if x := core.HS(seed, "c01.mcast", "", 0); x%100 < 15 {
+		// ... and, in half of those runs, a second one (it keeps its simulated address: the interface
+		// lookup of the client is answered by the simulation for addresses other than loopback)
+		want := 1 + int((x>>8)%2)
 		for i := range sc.Readers {
-			if sc.Readers[i].Transport == "udp" || sc.Readers[i].Transport == "tcp" {
+			if want > 0 && (sc.Readers[i].Transport == "udp" || sc.Readers[i].Transport == "tcp") {
 				sc.Readers[i].Transport = "mcast"
-				break
+				want--
 			}
 		}
 	}
@@ -447,7 +450,7 @@ func run(t *testing.T, sc Scenario) *core.Result {
 	var summary map[string]any
 	res := sys.Run(t, opts, func(w *sys.World) {
 		w.ProbeInit("queue_full_reported", "reader_paused", "reader_left_early", "seq_wrapped", "udp_reader", "publisher_source",
-			"secure", "tunnel_http", "tunnel_ws", "late_join", "stall_applied", "back_channel_in_stream", "lossless_udp_format_received", "partial_setup", "multicast_reader", "multicast_packets_delivered", "packets_delivered", "srtp_wrap_between_setup_and_play_waived", "reader_timed_out", "reader_api_error_publisher_gone")
+			"secure", "tunnel_http", "tunnel_ws", "late_join", "stall_applied", "back_channel_in_stream", "lossless_udp_format_received", "partial_setup", "multicast_reader", "second_multicast_reader", "multicast_packets_delivered", "packets_delivered", "srtp_wrap_between_setup_and_play_waived", "reader_timed_out", "reader_api_error_publisher_gone")
 		srvNode := w.Net.Node("srv", "10.0.0.1")
 		h := sys.NewHandler(w)
 		srv := &gortsplib.Server{
@@ -624,6 +627,7 @@ func run(t *testing.T, sc Scenario) *core.Result {
 
 		// ---- readers -----------------------------------------------------------
 		readers := make([]*readerState, len(sc.Readers))
+		mcastSeen := false
 		var names []string
 		for i, spec := range sc.Readers {
 			rs := &readerState{idx: i, spec: spec, recv: map[fkey][]rpkt{}}
@@ -632,7 +636,14 @@ func run(t *testing.T, sc Scenario) *core.Result {
 			names = append(names, name)
 			ip := fmt.Sprintf("10.0.0.%d", 20+i)
 			if spec.Transport == "mcast" {
-				ip = "127.0.0.1" // the client needs a real interface with its local address (net.Interfaces)
+				// the first multicast reader sits on loopback (the client finds its local address among the
+				// real interfaces), a second one keeps its simulated address (stand-in of the lookup)
+				if !mcastSeen {
+					ip = "127.0.0.1"
+				} else {
+					w.Probe("second_multicast_reader")
+				}
+				mcastSeen = true
 			}
 			node := w.Net.Node(name, ip)
 			switch spec.Transport {
@@ -1276,7 +1287,7 @@ func init() {
 	f := core.Register("C01", gen, run, shrink)
 	f.Real = []string{"gortsplib.Server, ServerStream, ServerSession, ServerConn, Client (root package, all pkg/* and internal/* it uses)", "pion rtp/rtcp/srtp/sdp", "gorilla/websocket", "crypto/tls", "net/http request/response parsing", "bufio"}
 	f.Simulated = []string{"TCP and UDP sockets, listeners, port allocation (simnet through Server.Listen/ListenPacket/TLSListen and Client.DialContext/DialTLSContext/ListenPacket)", "clock, timers, deadlines (testing/synctest fake clock)", "entropy (crypto/rand.Reader, uuid)", "goroutine interleaving at the enabled yield sites"}
-	f.Excluded = []string{"pkg/multicast's raw-socket platform files (replaced in the scratch copy by a stand-in that binds the group address through the ListenPacket seam; everything above it - multicast writers, listeners, SETUP negotiation - is the real code; at most one multicast reader per run)", "back-pressure under TLS / WebSocket (window unbounded there, DESIGN 2.3)"}
+	f.Excluded = []string{"pkg/multicast's raw-socket platform files (replaced in the scratch copy by a stand-in that binds the group address through the ListenPacket seam; everything above it - multicast writers, listeners, SETUP negotiation - is the real code)", "net.Interfaces for addresses other than loopback (a second multicast reader's interface lookup is answered by hooks/export_verif.go", "back-pressure under TLS / WebSocket (window unbounded there, DESIGN 2.3)"}
 	f.Rule = "scenario = stream description (1..3 medias x 1..3 formats; payload types unique across the medias, or - a fifth of the runs - numbered from 96 in every media) x source (server-side writer | recording client over udp/tcp/http/ws) x 1..4 readers (udp/tcp/http/ws, plain or TLS+SRTP) with seeded join / pause / resume / leave scripts x (an eighth of the runs: simulation-aware locks, a yield point before every statement of pkg/conn and internal/bytecounter, IdleTimeout 6 s so that readers send keep-alives every second while media flows, streams of 3 s) x packet sequence (sizes 10..max, seeded timestamps/markers, consecutive sequence numbers from a seeded start incl. wrap, arbitrary on reliable carriers) x fault mix (latency, chunking incl. 1-byte, UDP drop/dup/reorder/burst, bounded window + receiver stalls) x enabled yield sites; non-trivial = at least one packet delivered to a reader and (>= 1 fault kind other than plain delay fired or >= 1 yield site hit); distinct = distinct hash of the canonical event log"
 	f.Assumptions = []string{
 		"packets still queued when the reader itself sends PAUSE/TEARDOWN are not 'missing' (the reader has left)",
